@@ -440,3 +440,18 @@ M("C13", "emu-sv initial Hamiltonian: phase row from delta", "kill",
 M("C13", "twin: initial Hamiltonian at the start of the step", "twin",
   [(SVI, "                    0.5 * (self.target_times[step_idx] + self.target_times[step_idx + 1])\n                ),\n                device=self.state.data.device,",
     "                    self.target_times[step_idx]\n                ),\n                device=self.state.data.device,")])
+M("C14", "merge keeps only the near-duplicates", "kill",
+  [(PA, "        if merged and t - merged[-1] <= _TIME_MERGE_TOLERANCE:", "        if not (merged and t - merged[-1] <= _TIME_MERGE_TOLERANCE):")], "TIMEEQ-merge")
+M("C14", "merged end point is not 1.0", "kill", [(PA, "            if t == 1.0:\n                merged[-1] = t", "            if t != 1.0:\n                merged[-1] = t")], "TIMEEQ-merge")
+M("C14", "merge tolerance above the matching tolerance", "kill", [(PA, "_TIME_MERGE_TOLERANCE = 1e-10", "_TIME_MERGE_TOLERANCE = 1e-6")], "TIMEEQ-merge")
+M("C21", "distinct times appended only after the first", "kill",
+  [(PA, "        merged.append(t)\n    return merged", "        if merged:\n            merged.append(t)\n        else:\n            merged = [t]\n            continue\n        merged.append(t)\n    return merged")], "TIMEEQ-merge")
+M("C14", "twin: strict comparison in the merge", "twin",
+  [(PA, "        if merged and t - merged[-1] <= _TIME_MERGE_TOLERANCE:", "        if merged and t - merged[-1] < _TIME_MERGE_TOLERANCE:")])
+M("C14", "twin: merge written with else", "twin",
+  [(PA, "            continue\n        merged.append(t)\n    return merged", "        else:\n            merged.append(t)\n    return merged")])
+M("C24", "given noise model replaced by the empty one", "kill", [(PA, "        if not self.noise_model:\n", "        if self.noise_model:\n")], "NOISE-source")
+M("C17", "device noise model preferred when the flag is off", "kill",
+  [(PA, "            if config.prefer_device_noise_model\n", "            if not config.prefer_device_noise_model\n")], "NOISE-source")
+M("C16", "jump operators from the config's model, sampler from the selected one", "kill",
+  [(PA, "            self.noise_model, dim=self.dim, interact_type=int_type", "            config.noise_model, dim=self.dim, interact_type=int_type")], "NOISE-source")
